@@ -51,7 +51,7 @@ func chunkVar(name, kind string, n, nb int) []sup.Batch {
 func plan(tier string, seed int64) []sup.Batch {
 	nDirect, nScript, nb := 800, 160, 12
 	if tier == "thorough" {
-		nDirect, nScript, nb = 20000, 3000, 24
+		nDirect, nScript, nb = 16000, 2400, 24
 	}
 	var bs []sup.Batch
 	bs = append(bs, chunkVar("direct", "direct", nDirect, nb)...)
